@@ -60,6 +60,11 @@ def run(tier):
         vlib.vh(["repl", fam, "--out", tr])
         vlib.validate_runs(rep, "ReplTrace", "ReplTrace", tr, wd, fam, dev_cfgs=DEV, describe=describe, strip=("nodes",))
         os.remove(tr)
+    # node level: commands that name several keys (MSET, DEL, MGET, EXISTS) and DBSIZE, accepted at A, shipped to B
+    tr = os.path.join(wd, "multikey.ndjson")
+    vlib.vh(["repl", "multikey", "--seed", vlib.seed(), "--n", 1500 if thorough else 150, "--out", tr])
+    vlib.validate_runs(rep, "ReplTrace", "ReplTrace", tr, wd, "multikey", dev_cfgs=DEV, describe=describe, strip=("nodes",))
+    os.remove(tr)
     rep.cov["distinct_nontrivial"] = rep.cov["traces_validated_against_impl"]
     rep.cov["rule"] = ("a case is one run of 2-4 real replicated shard actors on one key: client commands at any node, deltas "
                        "delivered in any order, duplicated, delayed past later commands, anti-entropy; every case has >= 1 write")
